@@ -31,6 +31,7 @@ ASSUMPTIONS = [
     'in hostile mode an attempted open() of a non-existent outside path counts: only non-existence prevented the read',
 ]
 EXHAUSTIVE = {'quick': True, 'thorough': True}
+PYOPT_KINDS = ('sequences',)
 KNOWN_KEYS = {'include-prefix-sibling', 'require-dotdot-segment', 'carts-folder-prefix-sibling'}
 SEGS = ['x', '.', '..', 'sub', 'rootbar', 'root', '', '?', ';']   # (case variants ROOT/Root/SUB/Carts/Game are driven in the sequences shard)
 CANARY = b'CANARY_OUTSIDE_ROOT=1\n'
